@@ -701,3 +701,885 @@ Proof.
   eexists. eexists. split; [vm_compute; reflexivity|]. split; [vm_compute; reflexivity|].
   repeat split; vm_compute; reflexivity.
 Qed.
+
+(* ====================================================================================== *)
+From Coq Require Import Lia ZifyBool ZifyN ZifyNat.
+(* ---------- copyHeader: which backend headers reach the client, overwrite vs add ---------- *)
+Lemma hlookup_notin (h : hdr) k : ~ In k (map fst h) -> hlookup h k = None.
+Proof.
+  induction h as [|[k0 v0] h IH]; intros H; [reflexivity|]. simpl.
+  destruct (beq k0 k) eqn:E.
+  - apply beq_eq in E. exfalso. apply H. left. exact E.
+  - apply IH. intros H'. apply H. right. exact H'.
+Qed.
+
+Lemma fold_hadd_lookup k vv : canon_key k = k -> forall d k',
+  hlookup (fold_left (fun d v => hadd d k v) vv d) k' =
+  if beq k k' then (match vv with [] => hlookup d k' | _ => Some (olist (hlookup d k) ++ vv) end) else hlookup d k'.
+Proof.
+  intros Hc. induction vv as [|v vv IH]; intros d k'; simpl.
+  - destruct (beq k k'); reflexivity.
+  - rewrite IH. destruct (beq k k') eqn:E.
+    + rewrite !hlookup_hadd, Hc, beq_refl, E. destruct vv as [|v2 vv]; simpl.
+      * reflexivity.
+      * rewrite <- app_assoc. reflexivity.
+    + rewrite hlookup_hadd, Hc, E. reflexivity.
+Qed.
+
+Lemma copy_header_step_lookup dst k vv k' : canon_key k = k ->
+  hlookup (copy_header_step dst (k, vv)) k' =
+  if beq k k' then copy_value gen_skip_headers (hlookup dst k) (Some vv) k else hlookup dst k'.
+Proof.
+  intros Hc. unfold copy_header_step, copy_value, mem, nonempty.
+  destruct (hlookup dst k) as [pv|] eqn:Ed.
+  - destruct (existsb (beq k) gen_skip_headers) eqn:Es.
+    + destruct (beq k k') eqn:E; [|reflexivity]. apply beq_eq in E. subst k'. exact Ed.
+    + rewrite (fold_hadd_lookup k vv Hc). destruct (beq k k') eqn:E.
+      * apply beq_eq in E. subst k'. destruct (beq k K_SERVER) eqn:Esv.
+        -- rewrite Ed. destruct vv; simpl; [rewrite app_nil_r|]; reflexivity.
+        -- rewrite hlookup_hdel, Hc, beq_refl. destruct vv; reflexivity.
+      * destruct (beq k K_SERVER); [reflexivity|]. rewrite hlookup_hdel, Hc, E. reflexivity.
+  - rewrite (fold_hadd_lookup k vv Hc). destruct (beq k k') eqn:E; [|reflexivity].
+    apply beq_eq in E. subst k'. rewrite Ed. destruct vv; reflexivity.
+Qed.
+
+Lemma copy_header_lookup src : forall dst k,
+  NoDup (map fst src) -> (forall k', In k' (map fst src) -> canon_key k' = k') ->
+  hlookup (copy_header dst src) k = copy_value gen_skip_headers (hlookup dst k) (hlookup src k) k.
+Proof.
+  unfold copy_header. induction src as [|[k0 v0] src IH]; intros dst k Hnd Hc; cbn [fold_left].
+  - reflexivity.
+  - inversion Hnd as [|x xs Hx Hnd']. subst x xs.
+    rewrite IH by (try assumption; intros k' H'; apply Hc; right; exact H').
+    rewrite copy_header_step_lookup by (apply Hc; left; reflexivity).
+    cbn [hlookup]. destruct (beq k0 k) eqn:E.
+    + apply beq_eq in E. subst k0. rewrite (hlookup_notin src k Hx). reflexivity.
+    + reflexivity.
+Qed.
+
+(* the skip table regenerated from reverseproxy.go is the documented one *)
+Lemma mem_In k l : mem k l = true <-> In k l.
+Proof.
+  unfold mem. rewrite existsb_exists. split.
+  - intros [x [Hx E]]. apply beq_eq in E. subst x. exact Hx.
+  - intros H. exists k. split; [exact H|apply beq_refl].
+Qed.
+
+Lemma skip_table_documented k : mem k gen_skip_headers = mem k spec_skip.
+Proof.
+  assert (A : forallb (fun x => mem x spec_skip) gen_skip_headers = true) by (vm_compute; reflexivity).
+  assert (B : forallb (fun x => mem x gen_skip_headers) spec_skip = true) by (vm_compute; reflexivity).
+  rewrite forallb_forall in A, B.
+  destruct (mem k gen_skip_headers) eqn:E1; destruct (mem k spec_skip) eqn:E2; try reflexivity.
+  - apply mem_In in E1. rewrite (A k E1) in E2. discriminate.
+  - apply mem_In in E2. rewrite (B k E2) in E1. discriminate.
+Qed.
+
+(* ---------- canonical keys stay canonical, maps stay maps ---------- *)
+Lemma canon_go_idem s : forall u, canon_go u (canon_go u s) = canon_go u s.
+Proof.
+  induction s as [|c r IH]; intros u; [reflexivity|]. simpl.
+  set (c' := if u && is_lower c then c - 32 else if negb u && is_upper c then c + 32 else c).
+  assert (E : (if u && is_lower c' then c' - 32 else if negb u && is_upper c' then c' + 32 else c') = c').
+  { subst c'. unfold is_lower, is_upper. destruct u; simpl.
+    - destruct ((97 <=? c) && (c <=? 122)) eqn:L.
+      + assert (X : (97 <=? c - 32) && (c - 32 <=? 122) = false) by lia. rewrite X. reflexivity.
+      + rewrite L. reflexivity.
+    - destruct ((65 <=? c) && (c <=? 90)) eqn:U.
+      + assert (X : (65 <=? c + 32) && (c + 32 <=? 90) = false) by lia. rewrite X. reflexivity.
+      + rewrite U. reflexivity. }
+  rewrite E. rewrite IH. reflexivity.
+Qed.
+
+Lemma valid_after_case c u :
+  valid_field_byte c = true ->
+  valid_field_byte (if u && is_lower c then c - 32 else if negb u && is_upper c then c + 32 else c) = true.
+Proof.
+  intros H. destruct (u && is_lower c) eqn:A.
+  - apply andb_true_iff in A. destruct A as [_ A]. unfold is_lower in A.
+    unfold valid_field_byte, is_upper. assert (X : (65 <=? c - 32) && (c - 32 <=? 90) = true) by lia.
+    rewrite X. rewrite orb_true_r. reflexivity.
+  - destruct (negb u && is_upper c) eqn:B; [|exact H].
+    apply andb_true_iff in B. destruct B as [_ B]. unfold is_upper in B.
+    unfold valid_field_byte, is_lower. assert (X : (97 <=? c + 32) && (c + 32 <=? 122) = true) by lia.
+    rewrite X. reflexivity.
+Qed.
+
+Lemma canon_go_valid s : forall u, forallb valid_field_byte s = true -> forallb valid_field_byte (canon_go u s) = true.
+Proof.
+  induction s as [|c r IH]; intros u H; [reflexivity|]. simpl in *.
+  apply andb_true_iff in H. destruct H as [H1 H2].
+  rewrite (valid_after_case c u H1). simpl. apply IH. exact H2.
+Qed.
+
+Lemma canon_key_idem s : canon_key (canon_key s) = canon_key s.
+Proof.
+  unfold canon_key. destruct (forallb valid_field_byte s) eqn:V.
+  - rewrite (canon_go_valid s true V). apply canon_go_idem.
+  - rewrite V. reflexivity.
+Qed.
+
+Definition keys_ok (h : hdr) : Prop := NoDup (map fst h) /\ forall k, In k (map fst h) -> canon_key k = k.
+
+Lemma hdel_raw_keys h k x : In x (map fst (hdel_raw h k)) -> In x (map fst h) /\ x <> k.
+Proof.
+  unfold hdel_raw. intros H. apply in_map_iff in H. destruct H as [[k0 v0] [E H]]. simpl in E. subst k0.
+  apply filter_In in H. destruct H as [H1 H2]. simpl in H2. split.
+  - apply in_map_iff. exists (x, v0). split; [reflexivity|exact H1].
+  - intros ->. rewrite beq_refl in H2. discriminate.
+Qed.
+
+Lemma hdel_raw_nodup h k : NoDup (map fst h) -> NoDup (map fst (hdel_raw h k)).
+Proof.
+  unfold hdel_raw. induction h as [|[k0 v0] h IH]; intros H; [constructor|].
+  inversion H as [|x xs Hx Hnd]. subst x xs. simpl. destruct (negb (beq k0 k)); simpl.
+  - constructor; [|apply IH; exact Hnd]. intros HIn. apply Hx. apply (hdel_raw_keys h k k0). exact HIn.
+  - apply IH. exact Hnd.
+Qed.
+
+Lemma keys_ok_hdel_raw h k : keys_ok h -> keys_ok (hdel_raw h k).
+Proof.
+  intros [H1 H2]. split; [apply hdel_raw_nodup; exact H1|].
+  intros x Hx. apply H2. apply (hdel_raw_keys h k x Hx).
+Qed.
+
+Lemma NoDup_app_single {A} (l : list A) x : NoDup l -> ~ In x l -> NoDup (l ++ [x]).
+Proof.
+  induction l as [|a l IH]; intros Hnd Hx; simpl.
+  - constructor; [intros []|constructor].
+  - inversion Hnd as [|y ys Hy Hnd']. subst y ys. constructor.
+    + intros HIn. apply in_app_or in HIn. destruct HIn as [HIn|[E|[]]]; [exact (Hy HIn)|].
+      apply Hx. left. symmetry. exact E.
+    + apply IH; [exact Hnd'|]. intros HIn. apply Hx. right. exact HIn.
+Qed.
+
+Lemma keys_ok_hput h k vs : canon_key k = k -> keys_ok h -> keys_ok (hput h k vs).
+Proof.
+  intros Hc H. destruct (keys_ok_hdel_raw h k H) as [H1 H2]. unfold hput. split.
+  - rewrite map_app. simpl. apply NoDup_app_single; [exact H1|].
+    intros HIn. apply hdel_raw_keys in HIn. destruct HIn as [_ HIn]. apply HIn. reflexivity.
+  - intros x Hx. rewrite map_app in Hx. apply in_app_or in Hx. destruct Hx as [Hx|[<-|[]]]; [apply H2; exact Hx|exact Hc].
+Qed.
+
+Lemma fold_left_inv {A B} (P : A -> Prop) (f : A -> B -> A) l : forall a,
+  (forall a b, P a -> P (f a b)) -> P a -> P (fold_left f l a).
+Proof. induction l as [|x l IH]; intros a Hf Ha; [exact Ha|]. simpl. apply IH; [exact Hf|apply Hf; exact Ha]. Qed.
+
+Lemma keys_ok_hdel h n : keys_ok h -> keys_ok (hdel h n).
+Proof. apply keys_ok_hdel_raw. Qed.
+Lemma keys_ok_hset h n v : keys_ok h -> keys_ok (hset h n v).
+Proof. apply keys_ok_hput. apply canon_key_idem. Qed.
+Lemma keys_ok_hadd h n v : keys_ok h -> keys_ok (hadd h n v).
+Proof. apply keys_ok_hput. apply canon_key_idem. Qed.
+
+Lemma keys_ok_apply_rule e h0 h r : keys_ok h -> keys_ok (apply_rule e h0 h r).
+Proof.
+  intros H. destruct r as [f vals]. unfold apply_rule.
+  assert (S : keys_ok (match rev vals with [] => h | v :: _ => let x := replace_ph (subst_of e h0) v in if is_nil x then h else hset h f x end)).
+  { destruct (rev vals); [exact H|]. simpl. destruct (is_nil _); [exact H|apply keys_ok_hset; exact H]. }
+  destruct f as [|c name]; [exact S|].
+  destruct (c =? PLUS).
+  - apply fold_left_inv; [|exact H]. intros a b Ha. simpl. destruct (is_nil _); [exact Ha|apply keys_ok_hadd; exact Ha].
+  - destruct (c =? MINUS); [apply keys_ok_hdel; exact H|exact S].
+Qed.
+
+Lemma keys_ok_apply_rerule e h0 h r : keys_ok h -> keys_ok (apply_rerule e h0 h r).
+Proof.
+  intros H. unfold apply_rerule. apply fold_left_inv; [|exact H].
+  intros a b Ha. simpl. destruct (_ && _); [apply keys_ok_hset; exact Ha|exact Ha].
+Qed.
+
+Lemma keys_ok_mutate e h0 rules res h : keys_ok h -> keys_ok (mutate_headers e h0 rules res h).
+Proof.
+  intros H. unfold mutate_headers.
+  apply fold_left_inv; [intros a b; apply keys_ok_apply_rerule|].
+  apply fold_left_inv; [intros a b; apply keys_ok_apply_rule|exact H].
+Qed.
+
+Lemma keys_ok_resp_strip h : keys_ok h -> keys_ok (resp_strip h).
+Proof.
+  intros H. unfold resp_strip.
+  apply fold_left_inv; [intros a b; apply keys_ok_hdel|].
+  apply fold_left_inv; [intros a b; apply keys_ok_hdel|exact H].
+Qed.
+
+(* the header map the client side is handed (before the Trailer header is added) *)
+Definition client_hdr (c : pcfg) (e : reqenv) (live pre : hdr) (b : bresp) : hdr :=
+  copy_header pre (mutate_headers e live (c_down c) (c_downre c) (resp_strip (b_hdr b))).
+
+Lemma client_hdr_lookup c e live pre b k :
+  keys_ok (b_hdr b) ->
+  hlookup (client_hdr c e live pre b) k =
+  copy_value gen_skip_headers (hlookup pre k)
+    (fold_left vop_apply (vops_for (subst_of e live) (c_down c) k ++ revops_for (subst_of e live) (c_downre c) k)
+               (hlookup (resp_strip (b_hdr b)) k)) k.
+Proof.
+  intros H. unfold client_hdr.
+  destruct (keys_ok_mutate e live (c_down c) (c_downre c) _ (keys_ok_resp_strip _ H)) as [H1 H2].
+  rewrite copy_header_lookup by assumption. rewrite mutate_headers_lookup. reflexivity.
+Qed.
+
+Lemma client_view_hdr_lookup c e live pre b k :
+  keys_ok (b_hdr b) -> k <> K_TRAILER \/ b_announced b = [] ->
+  hlookup (v_hdr (client_view c e live pre b)) k = hlookup (client_hdr c e live pre b) k.
+Proof.
+  intros H Hk. unfold client_view, client_hdr. cbn [v_hdr].
+  destruct (is_nil (nodup_keys (b_announced b))) eqn:En; [reflexivity|].
+  destruct Hk as [Hk|Hk].
+  - rewrite hlookup_hput. assert (E : beq K_TRAILER k = false) by (apply beq_false_iff; congruence). rewrite E. reflexivity.
+  - rewrite Hk in En. discriminate.
+Qed.
+
+(* ---------- the copy loop: for every reader behaviour and buffer size the writes are the body ---------- *)
+Lemma skipn_shorter {A} n (l : list A) : (0 < n)%nat -> l <> [] -> (length (skipn n l) < length l)%nat.
+Proof. intros Hn Hl. rewrite skipn_length. destruct l; [congruence|]. cbn [length]. lia. Qed.
+
+Lemma copy_loop_cons f bufsz c data script eofd :
+  copy_loop (S f) bufsz {| r_data := c :: data; r_script := script; r_eofd := eofd |} =
+  (if match skipn (match script with [] => bufsz | k :: _ => Nat.min k bufsz end) (c :: data) with [] => eofd | _ :: _ => false end
+   then match firstn (match script with [] => bufsz | k :: _ => Nat.min k bufsz end) (c :: data) with
+        | [] => [] | _ :: _ => [firstn (match script with [] => bufsz | k :: _ => Nat.min k bufsz end) (c :: data)] end
+   else match firstn (match script with [] => bufsz | k :: _ => Nat.min k bufsz end) (c :: data) with
+        | [] => [] | _ :: _ => [firstn (match script with [] => bufsz | k :: _ => Nat.min k bufsz end) (c :: data)] end ++
+        copy_loop f bufsz {| r_data := skipn (match script with [] => bufsz | k :: _ => Nat.min k bufsz end) (c :: data);
+                             r_script := tl script; r_eofd := eofd |}).
+Proof. reflexivity. Qed.
+
+Lemma copy_loop_spec bufsz : (0 < bufsz)%nat -> forall fuel r,
+  (length (r_script r) + length (r_data r) < fuel)%nat ->
+  concat (copy_loop fuel bufsz r) = r_data r /\
+  Forall (fun w => (0 < length w <= bufsz)%nat) (copy_loop fuel bufsz r).
+Proof.
+  intros Hb. induction fuel as [|f IH]; intros r Hf; [lia|].
+  destruct r as [data script eofd]. simpl in Hf.
+  destruct data as [|c data]; [split; [reflexivity|constructor]|].
+  rewrite copy_loop_cons.
+  set (cap := match script with [] => bufsz | k :: _ => Nat.min k bufsz end).
+  set (full := c :: data) in *.
+  assert (Hcap : (cap <= bufsz)%nat) by (subst cap; destruct script; lia).
+  assert (Hsplit : firstn cap full ++ skipn cap full = full) by apply firstn_skipn.
+  assert (Hlen : (length (firstn cap full) <= bufsz)%nat) by (rewrite firstn_length; lia).
+  assert (Hws : concat (match firstn cap full with [] => [] | _ => [firstn cap full] end) = firstn cap full /\
+                Forall (fun w => (0 < length w <= bufsz)%nat) (match firstn cap full with [] => [] | _ => [firstn cap full] end)).
+  { destruct (firstn cap full) eqn:Ed; [split; [reflexivity|constructor]|].
+    split; [cbn [concat]; apply app_nil_r|]. constructor; [|constructor]. cbn [length] in *. lia. }
+  destruct Hws as [Hws1 Hws2].
+  destruct (match skipn cap full with [] => eofd | _ :: _ => false end) eqn:Eeof.
+  - split; [|exact Hws2]. transitivity (firstn cap full); [exact Hws1|]. destruct (skipn cap full) eqn:Es; [|discriminate].
+    rewrite app_nil_r in Hsplit. exact Hsplit.
+  - assert (Hf' : (length (tl script) + length (skipn cap full) < f)%nat).
+    { destruct script as [|k script].
+      - assert ((length (skipn cap full) < length full)%nat) by (apply skipn_shorter; [subst cap; exact Hb|subst full; discriminate]).
+        simpl in *. lia.
+      - assert ((length (skipn cap full) <= length full)%nat) by (rewrite skipn_length; lia).
+        simpl in *. lia. }
+    destruct (IH {| r_data := skipn cap full; r_script := tl script; r_eofd := eofd |} Hf') as [I1 I2].
+    cbn [r_data] in I1. split.
+    + rewrite concat_app, I1. transitivity (firstn cap full ++ skipn cap full); [|exact Hsplit].
+      f_equal. exact Hws1.
+    + apply Forall_app. split; assumption.
+Qed.
+
+Lemma copy_writes_spec bufsz r : (0 < bufsz)%nat ->
+  concat (copy_writes bufsz r) = r_data r /\ Forall (fun w => (0 < length w <= bufsz)%nat) (copy_writes bufsz r).
+Proof. intros Hb. unfold copy_writes. apply copy_loop_spec; [exact Hb|lia]. Qed.
+
+(* ---------- the ResponseWriter: body bytes do not depend on flush points ---------- *)
+Definition delivered (s : rwst) : bytes := rs_out s ++ rs_pending s.
+
+Lemma wh_fields s st :
+  rs_out (write_header s st) = rs_out s /\ rs_pending (write_header s st) = rs_pending s /\
+  rs_live (write_header s st) = rs_live s /\ rs_committed (write_header s st) = rs_committed s /\
+  rs_chunking (write_header s st) = rs_chunking s /\ rs_declared (write_header s st) = rs_declared s.
+Proof. unfold write_header. destruct (rs_status s); repeat split; reflexivity. Qed.
+
+Lemma commit_fields bo d s :
+  rs_out (commit bo d s) = rs_out s /\ rs_pending (commit bo d s) = rs_pending s /\ rs_live (commit bo d s) = rs_live s /\
+  rs_status (commit bo d s) = rs_status s /\ rs_snap (commit bo d s) = rs_snap s /\ rs_committed (commit bo d s) = true.
+Proof. unfold commit. destruct (rs_committed s) eqn:E; repeat split; try reflexivity. exact E. Qed.
+
+Lemma rw_step_delivered s o :
+  delivered (rw_step true s o) = delivered s ++ match o with OWrite p => p | _ => [] end.
+Proof.
+  unfold delivered. destruct o as [k vv|st|p|]; cbn [rw_step].
+  - simpl. rewrite app_nil_r. reflexivity.
+  - destruct (wh_fields s st) as [-> [-> _]]. rewrite app_nil_r. reflexivity.
+  - destruct (wh_fields s 200) as [E1 [E2 _]].
+    destruct (Nat.leb _ BUFIO).
+    + cbn [buffer rs_out rs_pending]. rewrite E1, E2, app_assoc. reflexivity.
+    + cbn [drain rs_out rs_pending]. destruct (commit_fields true false (buffer (write_header s 200) p)) as [-> [-> _]].
+      cbn [buffer rs_out rs_pending]. rewrite E1, E2, app_nil_r, app_assoc. reflexivity.
+  - cbn [drain rs_out rs_pending]. destruct (commit_fields true false (write_header s 200)) as [-> [-> _]].
+    destruct (wh_fields s 200) as [-> [-> _]]. rewrite !app_nil_r. reflexivity.
+Qed.
+
+Lemma rw_fold_delivered ops : forall s,
+  delivered (fold_left (rw_step true) ops s) = delivered s ++ payloads ops.
+Proof.
+  induction ops as [|o ops IH]; intros s; simpl; [rewrite app_nil_r; reflexivity|].
+  rewrite IH, rw_step_delivered, <- app_assoc. reflexivity.
+Qed.
+
+Lemma rw_run_out h ops : rs_out (rw_run true h ops) = payloads ops.
+Proof.
+  unfold rw_run, rw_finish. cbn [drain rs_out].
+  set (s := fold_left (rw_step true) ops (rw_init h)).
+  destruct (commit_fields true true (write_header s 200)) as [-> [-> _]].
+  destruct (wh_fields s 200) as [-> [-> _]].
+  change (delivered s = payloads ops). subst s. rewrite rw_fold_delivered. reflexivity.
+Qed.
+
+Lemma payloads_app a b : payloads (a ++ b) = payloads a ++ payloads b.
+Proof. unfold payloads. apply flat_map_app. Qed.
+
+Lemma payloads_writes ws : payloads (map OWrite ws) = concat ws.
+Proof. induction ws as [|w ws IH]; [reflexivity|]. simpl. rewrite <- IH. reflexivity. Qed.
+
+Lemma payloads_setkeys {A} (f : A -> bytes) (g : A -> list bytes) l : payloads (map (fun x => OSetKey (f x) (g x)) l) = [].
+Proof. induction l as [|x l IH]; [reflexivity|exact IH]. Qed.
+
+Lemma flush_interleave_payloads a b : flush_interleave a b -> payloads a = payloads b.
+Proof. induction 1 as [|o a b H IH|a b H IH]; simpl; [reflexivity|rewrite IH; reflexivity|exact IH]. Qed.
+
+Lemma resp_ops_with_payloads b mid : payloads (resp_ops_with b mid) = payloads mid.
+Proof.
+  unfold resp_ops_with. rewrite !payloads_app, payloads_setkeys.
+  destruct (is_nil (nodup_keys (b_announced b))); destruct (trailers_forced b); simpl; rewrite ?app_nil_r; reflexivity.
+Qed.
+
+(* every reader behaviour, every buffer size, every placement of the flush timer's Flush calls *)
+Lemma response_body_relayed h b r bufsz mid :
+  (0 < bufsz)%nat -> flush_interleave (map OWrite (copy_writes bufsz r)) mid ->
+  rs_out (rw_run true h (resp_ops_with b mid)) = r_data r.
+Proof.
+  intros Hb Hfi. rewrite rw_run_out, resp_ops_with_payloads, <- (flush_interleave_payloads _ _ Hfi), payloads_writes.
+  apply copy_writes_spec. exact Hb.
+Qed.
+
+(* ---------- the ResponseWriter: framing and trailers ---------- *)
+Lemma has_prefix_app p s : has_prefix (p ++ s) p = true.
+Proof. induction p as [|c p IH]; simpl; [destruct s; reflexivity|]. rewrite N.eqb_refl. exact IH. Qed.
+
+Lemma has_prefix_split p : forall s, has_prefix s p = true -> s = p ++ skipn (length p) s.
+Proof.
+  induction p as [|c p IH]; intros s H; [reflexivity|].
+  destruct s as [|x s]; simpl in H; [discriminate|].
+  apply andb_true_iff in H. destruct H as [H1 H2]. apply N.eqb_eq in H1. subst x.
+  simpl. f_equal. apply IH. exact H2.
+Qed.
+
+Lemma skipn_app_exact {A} (p s : list A) : skipn (length p) (p ++ s) = s.
+Proof. induction p as [|c p IH]; [reflexivity|exact IH]. Qed.
+
+Lemma cut_prefix_app p k : cut_prefix p (p ++ k) = Some k.
+Proof. unfold cut_prefix. rewrite has_prefix_app, skipn_app_exact. reflexivity. Qed.
+
+Lemma cut_prefix_some p k kk : cut_prefix p k = Some kk -> k = p ++ kk.
+Proof.
+  unfold cut_prefix. destruct (has_prefix k p) eqn:E; [|discriminate].
+  intros H. injection H as <-. apply has_prefix_split. exact E.
+Qed.
+
+Lemma hlookup_none_notin (h : hdr) k : hlookup h k = None -> ~ In k (map fst h).
+Proof.
+  induction h as [|[k0 v0] h IH]; intros H; [intros []|]. simpl in H.
+  destruct (beq k0 k) eqn:E; [discriminate|]. intros [E'|HIn].
+  - simpl in E'. subst k0. rewrite beq_refl in E. discriminate.
+  - exact (IH H HIn).
+Qed.
+
+Lemma hlookup_In (h : hdr) k vs : hlookup h k = Some vs -> In (k, vs) h.
+Proof.
+  induction h as [|[k0 v0] h IH]; intros H; [discriminate|]. simpl in H.
+  destruct (beq k0 k) eqn:E.
+  - apply beq_eq in E. subst k0. injection H as ->. left. reflexivity.
+  - right. apply IH. exact H.
+Qed.
+
+Lemma hput_nodup h k vs : NoDup (map fst h) -> NoDup (map fst (hput h k vs)).
+Proof.
+  intros H. unfold hput. rewrite map_app. simpl. apply NoDup_app_single; [apply hdel_raw_nodup; exact H|].
+  intros HIn. apply hdel_raw_keys in HIn. destruct HIn as [_ HIn]. apply HIn. reflexivity.
+Qed.
+
+Lemma prefix_fold_lookup P live : NoDup (map fst live) -> forall init kk,
+  hlookup (fold_left (fun t kv => match cut_prefix P (fst kv) with Some kk => hput t kk (snd kv) | None => t end) live init) kk =
+  match hlookup live (P ++ kk) with Some vv => Some vv | None => hlookup init kk end.
+Proof.
+  induction live as [|[k0 v0] live IH]; intros Hnd init kk; [reflexivity|].
+  inversion Hnd as [|x xs Hx Hnd']. subst x xs. cbn [fold_left hlookup fst snd].
+  rewrite (IH Hnd'). destruct (beq k0 (P ++ kk)) eqn:E.
+  - apply beq_eq in E. subst k0. rewrite (hlookup_notin live _ Hx), cut_prefix_app, hlookup_hput, beq_refl. reflexivity.
+  - destruct (hlookup live (P ++ kk)); [reflexivity|].
+    destruct (cut_prefix P k0) as [kk'|] eqn:Ec; [|reflexivity].
+    rewrite hlookup_hput. destruct (beq kk' kk) eqn:E2; [|reflexivity].
+    apply beq_eq in E2. subst kk'. apply cut_prefix_some in Ec. subst k0. rewrite beq_refl in E. discriminate.
+Qed.
+
+Lemma declared_fold_lookup live decl : NoDup decl -> (forall k, In k decl -> canon_key k = k) -> forall t k,
+  olist (hlookup (fold_left (fun t k => fold_left (fun t v => hadd t k v) (olist (hlookup live k)) t) decl t) k) =
+  olist (hlookup t k) ++ (if mem k decl then olist (hlookup live k) else []).
+Proof.
+  induction decl as [|d decl IH]; intros Hnd Hc t k; [simpl; rewrite app_nil_r; reflexivity|].
+  inversion Hnd as [|x xs Hx Hnd']. subst x xs. cbn [fold_left].
+  rewrite IH by (try assumption; intros k' H'; apply Hc; right; exact H').
+  rewrite (fold_hadd_lookup d _ (Hc d (or_introl eq_refl))).
+  unfold mem. cbn [existsb]. fold (mem k decl). rewrite (beq_sym k d).
+  destruct (beq d k) eqn:E.
+  - apply beq_eq in E. subst d.
+    assert (M : mem k decl = false).
+    { destruct (mem k decl) eqn:M; [|reflexivity]. apply mem_In in M. contradiction. }
+    rewrite M. simpl. rewrite app_nil_r. destruct (olist (hlookup live k)); [rewrite app_nil_r|]; reflexivity.
+  - simpl. reflexivity.
+Qed.
+
+Lemma srv_final_trailers_lookup live decl k :
+  NoDup (map fst live) -> NoDup decl -> (forall k', In k' decl -> canon_key k' = k') ->
+  olist (hlookup (srv_final_trailers live decl) k) =
+  olist (hlookup live (TRAILER_PREFIX ++ k)) ++ (if mem k decl then olist (hlookup live k) else []).
+Proof.
+  intros H1 H2 H3. unfold srv_final_trailers. rewrite declared_fold_lookup by assumption.
+  rewrite prefix_fold_lookup by assumption. cbn [hlookup]. destruct (hlookup live (TRAILER_PREFIX ++ k)); reflexivity.
+Qed.
+
+(* -- how the state evolves -- *)
+Definition fold_setkeys (ops : list rwop) (l : hdr) : hdr :=
+  fold_left (fun l o => match o with OSetKey k vv => hput l k vv | _ => l end) ops l.
+
+Definition wf (s : rwst) : Prop :=
+  rs_status s <> None /\
+  (rs_committed s = true -> rs_chunking s = chunking_of true false (rs_snap s) /\ rs_declared s = declared_of (rs_snap s)).
+
+Lemma wh_id s st : rs_status s <> None -> write_header s st = s.
+Proof. unfold write_header. destruct (rs_status s); [reflexivity|congruence]. Qed.
+
+Lemma commit_early s : wf s -> wf (commit true false s) /\ rs_committed (commit true false s) = true.
+Proof.
+  intros [W1 W2]. unfold commit. destruct (rs_committed s) eqn:E.
+  - split; [split; [exact W1|intros _; apply W2; reflexivity]|exact E].
+  - split; [|reflexivity]. split; [exact W1|]. intros _. split; reflexivity.
+Qed.
+
+Lemma step_summary s o : wf s ->
+  let s' := rw_step true s o in
+  wf s' /\ rs_snap s' = rs_snap s /\ rs_status s' = rs_status s /\
+  rs_live s' = match o with OSetKey k vv => hput (rs_live s) k vv | _ => rs_live s end /\
+  (rs_committed s = true -> rs_committed s' = true) /\ (o = OFlush -> rs_committed s' = true).
+Proof.
+  intros W. destruct W as [W1 W2]. destruct o as [k vv|st|p|]; cbn [rw_step]; cbv zeta.
+  - split; [split; [exact W1|exact W2]|]. repeat split; try (intros H; exact H); try (intros H; discriminate H).
+  - rewrite (wh_id s st W1). split; [split; [exact W1|exact W2]|].
+    repeat split; try (intros H; exact H); try (intros H; discriminate H).
+  - rewrite (wh_id s 200 W1). destruct (Nat.leb _ BUFIO).
+    + split; [split; [exact W1|exact W2]|]. repeat split; try (intros H; exact H); try (intros H; discriminate H).
+    + assert (Wb : wf (buffer s p)) by (split; [exact W1|exact W2]).
+      destruct (commit_early _ Wb) as [[C1 C2] C3].
+      destruct (commit_fields true false (buffer s p)) as [_ [_ [F3 [F4 [F5 F6]]]]].
+      split; [split; [exact C1|exact C2]|].
+      cbn [drain rs_status rs_committed rs_snap rs_live].
+      split; [exact F5|]. split; [exact F4|]. split; [exact F3|]. split; [intros _; exact F6|intros H; discriminate H].
+  - rewrite (wh_id s 200 W1).
+    destruct (commit_early _ (conj W1 W2)) as [[C1 C2] C3].
+    destruct (commit_fields true false s) as [_ [_ [F3 [F4 [F5 F6]]]]].
+    split; [split; [exact C1|exact C2]|].
+    cbn [drain rs_status rs_committed rs_snap rs_live].
+    split; [exact F5|]. split; [exact F4|]. split; [exact F3|]. split; intros _; exact F6.
+Qed.
+
+Lemma fold_summary ops : forall s, wf s ->
+  let s' := fold_left (rw_step true) ops s in
+  wf s' /\ rs_snap s' = rs_snap s /\ rs_status s' = rs_status s /\ rs_live s' = fold_setkeys ops (rs_live s) /\
+  (rs_committed s = true \/ In OFlush ops -> rs_committed s' = true).
+Proof.
+  induction ops as [|o ops IH]; intros s W; cbv zeta.
+  - split; [exact W|]. split; [reflexivity|]. split; [reflexivity|]. split; [reflexivity|]. intros [Hc|[]]. exact Hc.
+  - cbn [fold_left]. destruct (step_summary s o W) as [W' [S1 [S2 [S3 [S4 S5]]]]].
+    destruct (IH _ W') as [W'' [T1 [T2 [T3 T4]]]].
+    split; [exact W''|]. split; [congruence|]. split; [congruence|]. split.
+    + rewrite T3, S3. unfold fold_setkeys. cbn [fold_left]. destruct o; reflexivity.
+    + intros [Hc|Hin]; [apply T4; left; apply S4; exact Hc|]. destruct Hin as [Ho|Hi]; apply T4; [left; apply S5; exact Ho|right; exact Hi].
+Qed.
+
+Lemma finish_summary s : wf s ->
+  let s' := rw_finish true s in
+  rs_snap s' = rs_snap s /\ rs_status s' = rs_status s /\ rs_live s' = rs_live s /\
+  rs_declared s' = declared_of (rs_snap s) /\
+  (rs_committed s = true -> rs_chunking s' = chunking_of true false (rs_snap s)) /\
+  (rs_chunking s' = chunking_of true false (rs_snap s) \/ rs_chunking s' = chunking_of true true (rs_snap s)).
+Proof.
+  intros [W1 W2]. cbv zeta. unfold rw_finish. rewrite (wh_id s 200 W1).
+  unfold commit. destruct (rs_committed s) eqn:E; cbn [drain rs_snap rs_status rs_live rs_declared rs_chunking].
+  - destruct (W2 eq_refl) as [A B]. repeat split; try assumption; try (intros; assumption). left. exact A.
+  - repeat split; try discriminate. right. reflexivity.
+Qed.
+
+Lemma run_summary h pre st ops :
+  (forall o, In o pre -> exists k vv, o = OSetKey k vv) ->
+  let h' := fold_setkeys pre h in
+  let s := rw_run true h (pre ++ OWriteHeader st :: ops) in
+  rs_snap s = h' /\ rs_status s = Some st /\ rs_live s = fold_setkeys ops h' /\ rs_declared s = declared_of h' /\
+  (In OFlush ops -> rs_chunking s = chunking_of true false h') /\
+  (rs_chunking s = chunking_of true false h' \/ rs_chunking s = chunking_of true true h').
+Proof.
+  intros Hpre. cbv zeta. unfold rw_run. rewrite fold_left_app. cbn [fold_left].
+  assert (E0 : fold_left (rw_step true) pre (rw_init h) = rw_init (fold_setkeys pre h)).
+  { clear ops. revert h. induction pre as [|o pre IH]; intros h; [reflexivity|].
+    destruct (Hpre o (or_introl eq_refl)) as [k [vv ->]]. cbn [fold_left rw_step].
+    change (set_live (rw_init h) (hput (rs_live (rw_init h)) k vv)) with (rw_init (hput h k vv)).
+    rewrite IH by (intros o' H'; apply Hpre; right; exact H'). reflexivity. }
+  rewrite E0. set (h' := fold_setkeys pre h).
+  set (s1 := rw_step true (rw_init h') (OWriteHeader st)).
+  assert (W1 : wf s1) by (split; [discriminate|intros H; discriminate H]).
+  destruct (fold_summary ops s1 W1) as [W [S1 [S2 [S3 S4]]]].
+  destruct (finish_summary _ W) as [F1 [F2 [F3 [F4 [F5 F6]]]]].
+  rewrite S1 in *. change (rs_snap s1) with h' in *. change (rs_live s1) with h' in *. change (rs_status s1) with (Some st) in *.
+  split; [congruence|]. split; [congruence|]. split; [congruence|]. split; [congruence|]. split.
+  - intros HF. apply F5. apply S4. right. exact HF.
+  - exact F6.
+Qed.
+
+(* -- the proxy's sequence of calls on that writer -- *)
+Lemma nodup_keys_fold l : forall acc, NoDup (acc ++ l) ->
+  fold_left (fun acc k => if existsb (beq k) acc then acc else acc ++ [k]) l acc = acc ++ l.
+Proof.
+  induction l as [|x l IH]; intros acc H; simpl; [rewrite app_nil_r; reflexivity|].
+  assert (E : existsb (beq x) acc = false).
+  { destruct (existsb (beq x) acc) eqn:E; [|reflexivity]. apply (mem_In x acc) in E.
+    apply NoDup_remove_2 in H. exfalso. apply H. apply in_or_app. left. exact E. }
+  rewrite E. rewrite IH; rewrite <- app_assoc; [reflexivity|exact H].
+Qed.
+
+Lemma nodup_keys_id l : NoDup l -> nodup_keys l = l.
+Proof. intros H. unfold nodup_keys. rewrite nodup_keys_fold; [reflexivity|exact H]. Qed.
+
+Lemma declared_tokens_id l :
+  (forall k, In k l -> canon_key k = k /\ conn_tokens k = [k]) -> map canon_key (flat_map conn_tokens l) = l.
+Proof.
+  induction l as [|x l IH]; intros H; [reflexivity|]. simpl.
+  destruct (H x (or_introl eq_refl)) as [H1 H2]. rewrite H2. simpl. rewrite H1. f_equal.
+  apply IH. intros k Hk. apply H. right. exact Hk.
+Qed.
+
+Lemma fold_setkeys_app a b l : fold_setkeys (a ++ b) l = fold_setkeys b (fold_setkeys a l).
+Proof. unfold fold_setkeys. apply fold_left_app. Qed.
+
+Lemma fold_setkeys_interleave a b : flush_interleave a b ->
+  (forall o, In o a -> match o with OSetKey _ _ => False | _ => True end) ->
+  (forall l, fold_setkeys b l = l) /\ (forall o, In o b -> match o with OSetKey _ _ => False | _ => True end).
+Proof.
+  induction 1 as [|o a b H IH|a b H IH]; intros Ha.
+  - split; [reflexivity|intros o []].
+  - destruct IH as [I1 I2]; [intros o' H'; apply Ha; right; exact H'|]. split.
+    + intros l. unfold fold_setkeys. cbn [fold_left]. fold (fold_setkeys b).
+      specialize (Ha o (or_introl eq_refl)). destruct o; [destruct Ha| | |]; apply I1.
+    + intros o' [<-|H']; [apply Ha; left; reflexivity|apply I2; exact H'].
+  - destruct (IH Ha) as [I1 I2]. split.
+    + intros l. unfold fold_setkeys. cbn [fold_left]. apply I1.
+    + intros o' [<-|H']; [exact I|apply I2; exact H'].
+Qed.
+
+Lemma writes_no_setkey ws o : In o (map OWrite ws) -> match o with OSetKey _ _ => False | _ => True end.
+Proof. intros H. apply in_map_iff in H. destruct H as [w [<- _]]. exact I. Qed.
+
+Lemma fold_setkeys_map (g : bytes -> bytes) (T : hdr) : forall l,
+  fold_setkeys (map (fun kv => OSetKey (g (fst kv)) (snd kv)) T) l =
+  fold_left (fun t kv => hput t (fst kv) (snd kv)) (map (fun kv => (g (fst kv), snd kv)) T) l.
+Proof. induction T as [|kv T IH]; intros l; [reflexivity|]. unfold fold_setkeys in *. cbn [map fold_left fst snd]. apply IH. Qed.
+
+Lemma inj_map_nodup {A B} (f : A -> B) l : (forall a b, f a = f b -> a = b) -> NoDup l -> NoDup (map f l).
+Proof.
+  intros Hinj. induction l as [|x l IH]; intros H; [constructor|].
+  inversion H as [|y ys Hy Hnd]. subst y ys. simpl. constructor; [|apply IH; exact Hnd].
+  intros HIn. apply in_map_iff in HIn. destruct HIn as [z [E Hz]]. apply Hinj in E. subst z. exact (Hy Hz).
+Qed.
+
+Lemma setkeys_lookup_hit (g : bytes -> bytes) (T : hdr) l k :
+  (forall a b, g a = g b -> a = b) -> NoDup (map fst T) ->
+  hlookup (fold_left (fun t kv => hput t (fst kv) (snd kv)) (map (fun kv => (g (fst kv), snd kv)) T) l) (g k) =
+  match hlookup T k with Some vv => Some vv | None => hlookup l (g k) end.
+Proof.
+  intros Hinj Hnd. destruct (hlookup T k) as [vv|] eqn:E.
+  - apply fold_hput_in.
+    + rewrite map_map. cbn [fst]. rewrite <- (map_map fst g). apply inj_map_nodup; [exact Hinj|exact Hnd].
+    + apply hlookup_In in E. apply in_map_iff. exists (k, vv). split; [reflexivity|exact E].
+  - apply fold_hput_other. intros kv Hkv Ek. apply in_map_iff in Hkv. destruct Hkv as [[k0 v0] [<- Hkv]].
+    cbn [fst] in Ek. apply Hinj in Ek. subst k0. apply hlookup_none_notin in E. apply E.
+    apply in_map_iff. exists (k, v0). split; [reflexivity|exact Hkv].
+Qed.
+
+Lemma setkeys_lookup_miss (g : bytes -> bytes) (T : hdr) l x :
+  (forall k, In k (map fst T) -> g k <> x) ->
+  hlookup (fold_left (fun t kv => hput t (fst kv) (snd kv)) (map (fun kv => (g (fst kv), snd kv)) T) l) x = hlookup l x.
+Proof.
+  intros H. apply fold_hput_other. intros kv Hkv Ek. apply in_map_iff in Hkv. destruct Hkv as [[k0 v0] [<- Hkv]].
+  cbn [fst] in Ek. apply (H k0); [|exact Ek]. apply in_map_iff. exists (k0, v0). split; [reflexivity|exact Hkv].
+Qed.
+
+Lemma fold_hput_nodup (T : hdr) : forall l, NoDup (map fst l) ->
+  NoDup (map fst (fold_left (fun t kv => hput t (fst kv) (snd kv)) T l)).
+Proof. induction T as [|kv T IH]; intros l H; [exact H|]. cbn [fold_left]. apply IH. apply hput_nodup. exact H. Qed.
+
+Lemma final_trailers_nodup b : NoDup (b_announced b) -> NoDup (map fst (final_trailers b)).
+Proof.
+  intros H. unfold final_trailers. apply fold_hput_nodup. rewrite map_map. cbn [fst]. rewrite map_id. exact H.
+Qed.
+
+Lemma final_trailers_key b k : In k (map fst (final_trailers b)) -> In k (b_announced b) \/ In k (map fst (b_trailers b)).
+Proof.
+  intros H. destruct (mem k (b_announced b)) eqn:E1; [left; apply mem_In; exact E1|].
+  destruct (mem k (map fst (b_trailers b))) eqn:E2; [right; apply mem_In; exact E2|].
+  exfalso. apply (hlookup_none_notin (final_trailers b) k); [|exact H].
+  apply trailers_nothing_else; intros HIn; apply mem_In in HIn; congruence.
+Qed.
+
+Definition client_hdr_ok (h : hdr) : Prop :=
+  NoDup (map fst h) /\ hlookup h K_CL = None /\ hlookup h K_TRAILER = None /\
+  (forall k, has_prefix k TRAILER_PREFIX = true -> hlookup h k = None).
+Definition trailer_keys_ok (h : hdr) (b : bresp) : Prop :=
+  NoDup (b_announced b) /\ NoDup (map fst (b_trailers b)) /\
+  (forall k, In k (b_announced b) \/ In k (map fst (b_trailers b)) ->
+             canon_key k = k /\ conn_tokens k = [k] /\ has_prefix k TRAILER_PREFIX = false /\ k <> K_TRAILER) /\
+  (forall k, In k (b_announced b) -> hlookup h k = None).
+
+Lemma prefix_inj (p a b : bytes) : p ++ a = p ++ b -> a = b.
+Proof. apply app_inv_head. Qed.
+
+Lemma forced_when_unannounced b : b_announced b = [] -> b_trailers b <> [] -> trailers_forced b = true.
+Proof.
+  intros Ha Ht. unfold trailers_forced. rewrite Ha. destruct (b_trailers b) as [|kv l]; [congruence|]. reflexivity.
+Qed.
+
+Lemma not_forced_announced b k : trailers_forced b = false -> In k (map fst (b_trailers b)) -> In k (b_announced b).
+Proof.
+  unfold trailers_forced. intros H HIn. apply negb_false_iff in H. rewrite forallb_forall in H.
+  apply in_map_iff in HIn. destruct HIn as [kv [<- HIn]]. apply mem_In. apply H. exact HIn.
+Qed.
+
+Lemma not_ne_nil {A} (l : list A) : (l <> [] -> False) -> l = [].
+Proof. destruct l; [reflexivity|]. intros H. exfalso. apply H. discriminate. Qed.
+
+Lemma trailers_relayed_rw h b ws mid :
+  client_hdr_ok h -> trailer_keys_ok h b -> flush_interleave (map OWrite ws) mid ->
+  let s := rw_run true h (resp_ops_with b mid) in
+  rs_status s = Some (b_status b) /\
+  (b_announced b <> [] -> hlookup (rs_snap s) K_TRAILER = Some (b_announced b)) /\
+  (b_announced b <> [] \/ b_trailers b <> [] -> rs_chunking s = true) /\
+  (forall k, olist (hlookup (rw_trailers s) k) = olist (hlookup (final_trailers b) k)).
+Proof.
+  intros [Hnd [Hcl [Htr Hpf]]] [Ha [Ht [Hk Hh]]] Hfi. cbv zeta.
+  unfold resp_ops_with. rewrite (nodup_keys_id _ Ha).
+  set (ann := b_announced b) in *.
+  set (pre := if is_nil ann then [] else [OSetKey K_TRAILER ann]).
+  set (T := final_trailers b).
+  set (g := fun k : bytes => if trailers_forced b then TRAILER_PREFIX ++ k else k).
+  set (P := map (fun kv => OSetKey (if trailers_forced b then TRAILER_PREFIX ++ fst kv else fst kv) (snd kv)) T).
+  set (ops := (if is_nil ann then [] else [OFlush]) ++ mid ++ (if trailers_forced b then [OFlush] else []) ++ P).
+  change (rs_status (rw_run true h (pre ++ [OWriteHeader (b_status b)] ++ ops)) = Some (b_status b) /\
+          (ann <> [] -> hlookup (rs_snap (rw_run true h (pre ++ [OWriteHeader (b_status b)] ++ ops))) K_TRAILER = Some ann) /\
+          (ann <> [] \/ b_trailers b <> [] -> rs_chunking (rw_run true h (pre ++ [OWriteHeader (b_status b)] ++ ops)) = true) /\
+          (forall k, olist (hlookup (rw_trailers (rw_run true h (pre ++ [OWriteHeader (b_status b)] ++ ops))) k) = olist (hlookup T k))).
+  assert (Hpre : forall o, In o pre -> exists k vv, o = OSetKey k vv).
+  { subst pre. destruct (is_nil ann); [intros o []|]. intros o [<-|[]]. eauto. }
+  destruct (run_summary h pre (b_status b) ops Hpre) as [R1 [R2 [R3 [R4 [R5 R6]]]]].
+  cbn [app] in *. set (s := rw_run true h (pre ++ OWriteHeader (b_status b) :: ops)) in *.
+  set (h' := fold_setkeys pre h) in *.
+  assert (Eh' : forall x, x <> K_TRAILER -> hlookup h' x = hlookup h x).
+  { intros x Hx. subst h' pre. destruct (is_nil ann); [reflexivity|]. unfold fold_setkeys. cbn [fold_left].
+    rewrite hlookup_hput. assert (E : beq K_TRAILER x = false) by (apply beq_false_iff; congruence). rewrite E. reflexivity. }
+  assert (Etr : hlookup h' K_TRAILER = if is_nil ann then None else Some ann).
+  { subst h' pre. destruct (is_nil ann); [exact Htr|]. unfold fold_setkeys. cbn [fold_left]. rewrite hlookup_hput, beq_refl. reflexivity. }
+  assert (Hndh' : NoDup (map fst h')).
+  { subst h' pre. destruct (is_nil ann); [exact Hnd|]. unfold fold_setkeys. cbn [fold_left]. apply hput_nodup. exact Hnd. }
+  assert (Edecl : declared_of h' = ann).
+  { unfold declared_of. rewrite Etr. destruct ann as [|a0 ann0] eqn:Eann; [reflexivity|]. cbn [is_nil olist].
+    apply declared_tokens_id. intros k Hk'. destruct (Hk k (or_introl Hk')) as [A [B _]]. split; assumption. }
+  assert (Ech : chunking_of true false h' = true).
+  { unfold chunking_of, has_key. rewrite Eh' by (intros E; vm_compute in E; discriminate). rewrite Hcl. reflexivity. }
+  destruct (fold_setkeys_interleave _ _ Hfi (writes_no_setkey ws)) as [Hmid _].
+  assert (Elive : rs_live s = fold_left (fun t kv => hput t (fst kv) (snd kv)) (map (fun kv => (g (fst kv), snd kv)) T) h').
+  { rewrite R3. subst ops. rewrite !fold_setkeys_app, Hmid.
+    assert (E1 : fold_setkeys (if is_nil ann then [] else [OFlush]) h' = h') by (destruct (is_nil ann); reflexivity).
+    rewrite E1.
+    assert (E2 : fold_setkeys (if trailers_forced b then [OFlush] else []) h' = h') by (destruct (trailers_forced b); reflexivity).
+    rewrite E2. subst P. apply (fold_setkeys_map g T h'). }
+  assert (Hflush : ann <> [] \/ b_trailers b <> [] -> In OFlush ops).
+  { intros [H|H]; subst ops.
+    - destruct ann; [congruence|]. left. reflexivity.
+    - destruct ann as [|a0 ann0] eqn:Eann.
+      + apply in_or_app. right. apply in_or_app. right. rewrite (forced_when_unannounced b Eann H). left. reflexivity.
+      + left. reflexivity. }
+  split; [exact R2|]. split.
+  { intros Hne. rewrite R1, Etr. destruct ann; [congruence|reflexivity]. }
+  split.
+  { intros Hne. rewrite (R5 (Hflush Hne)). exact Ech. }
+  intros k. unfold rw_trailers. destruct (rs_chunking s) eqn:Ecs.
+  2:{ (* not chunked: there is no trailer at all *)
+    assert (N : ~ (ann <> [] \/ b_trailers b <> [])).
+    { intros Hne. pose proof (R5 (Hflush Hne)) as X. rewrite Ech in X. discriminate X. }
+    assert (N1 : ann = []) by (apply not_ne_nil; intros H; apply N; left; exact H).
+    assert (N2 : b_trailers b = []) by (apply not_ne_nil; intros H; apply N; right; exact H).
+    subst T. unfold final_trailers. fold ann. rewrite N1, N2. reflexivity. }
+  rewrite R4, Edecl.
+  assert (HndT : NoDup (map fst T)) by (apply final_trailers_nodup; exact Ha).
+  assert (Hndlive : NoDup (map fst (rs_live s))) by (rewrite Elive; apply fold_hput_nodup; exact Hndh').
+  rewrite srv_final_trailers_lookup; [|exact Hndlive|exact Ha|intros k' Hk'; apply (Hk k' (or_introl Hk'))].
+  assert (Hkeys : forall k', In k' (map fst T) -> has_prefix k' TRAILER_PREFIX = false /\ k' <> K_TRAILER).
+  { intros k' Hk'. apply final_trailers_key in Hk'. destruct (Hk k' Hk') as [_ [_ [A B]]]. split; assumption. }
+  rewrite Elive. subst g. cbv beta. destruct (trailers_forced b) eqn:Ef; cbv beta iota.
+  - (* unannounced trailers arrived: everything travels under the TrailerPrefix *)
+    pose proof (setkeys_lookup_hit (fun k => TRAILER_PREFIX ++ k) T h' k (prefix_inj TRAILER_PREFIX) HndT) as X1. cbv beta in X1.
+    rewrite Eh' in X1 by (intros E; vm_compute in E; discriminate).
+    rewrite (Hpf (TRAILER_PREFIX ++ k) (has_prefix_app _ _)) in X1.
+    match goal with |- olist ?A ++ _ = _ => assert (EA : A = match hlookup T k with Some vv => Some vv | None => None end) by exact X1; rewrite EA end.
+    destruct (mem k ann) eqn:M.
+    + apply mem_In in M. destruct (Hk k (or_introl M)) as [_ [_ [A B']]].
+      pose proof (setkeys_lookup_miss (fun k => TRAILER_PREFIX ++ k) T h' k) as X2. cbv beta in X2.
+      match goal with |- _ ++ olist ?B = _ => assert (EB : B = hlookup h' k); [apply X2|rewrite EB] end.
+      { intros k' _ E. rewrite <- E, has_prefix_app in A. discriminate. }
+      rewrite Eh' by exact B'. rewrite (Hh k M). cbn [olist]. rewrite app_nil_r. destruct (hlookup T k); reflexivity.
+    + rewrite app_nil_r. destruct (hlookup T k); reflexivity.
+  - (* every trailer was announced: plain keys, picked up through the declared list *)
+    pose proof (setkeys_lookup_miss (fun k => k) T h' (TRAILER_PREFIX ++ k)) as X2. cbv beta in X2.
+    rewrite Eh' in X2 by (intros E; vm_compute in E; discriminate).
+    rewrite (Hpf (TRAILER_PREFIX ++ k) (has_prefix_app _ _)) in X2.
+    match goal with |- olist ?A ++ _ = _ => assert (EA : A = None); [apply X2|rewrite EA] end.
+    { intros k' Hk' E. destruct (Hkeys k' Hk') as [A _]. rewrite E, has_prefix_app in A. discriminate. }
+    cbn [olist app].
+    destruct (mem k ann) eqn:M.
+    + apply mem_In in M. destruct (Hk k (or_introl M)) as [_ [_ [_ B]]].
+      pose proof (setkeys_lookup_hit (fun k => k) T h' k (fun a b E => E) HndT) as X1. cbv beta in X1.
+      rewrite Eh' in X1 by exact B. rewrite (Hh k M) in X1.
+      match goal with |- olist ?A = _ => assert (EA2 : A = match hlookup T k with Some vv => Some vv | None => None end) by exact X1; rewrite EA2 end.
+      destruct (hlookup T k); reflexivity.
+    + assert (N : hlookup T k = None).
+      { subst T. apply trailers_nothing_else.
+        - intros HIn. apply mem_In in HIn. fold ann in HIn. congruence.
+        - intros HIn. apply (not_forced_announced b k Ef) in HIn. apply mem_In in HIn. fold ann in HIn. congruence. }
+      rewrite N. reflexivity.
+Qed.
+
+(* ---------- statements as used in C04_Props.v ---------- *)
+Lemma response_copy_header_spec :
+  (forall k, mem k gen_skip_headers = mem k spec_skip) /\
+  (forall dst src k, NoDup (map fst src) -> (forall k', In k' (map fst src) -> canon_key k' = k') ->
+     hlookup (copy_header dst src) k = copy_value gen_skip_headers (hlookup dst k) (hlookup src k) k) /\
+  (forall c e live pre b k, keys_ok (b_hdr b) -> k <> K_TRAILER \/ b_announced b = [] ->
+     hlookup (v_hdr (client_view c e live pre b)) k =
+     copy_value gen_skip_headers (hlookup pre k)
+       (fold_left vop_apply (vops_for (subst_of e live) (c_down c) k ++ revops_for (subst_of e live) (c_downre c) k)
+                  (hlookup (resp_strip (b_hdr b)) k)) k).
+Proof.
+  split; [exact skip_table_documented|]. split.
+  - intros dst src k H1 H2. apply copy_header_lookup; assumption.
+  - intros c e live pre b k H1 H2. rewrite client_view_hdr_lookup by assumption. apply client_hdr_lookup. exact H1.
+Qed.
+
+Lemma trailers_spec h b r bufsz mid :
+  client_hdr_ok h -> trailer_keys_ok h b -> flush_interleave (map OWrite (copy_writes bufsz r)) mid ->
+  let s := rw_run true h (resp_ops_with b mid) in
+  rs_status s = Some (b_status b) /\
+  (b_announced b <> [] -> hlookup (rs_snap s) K_TRAILER = Some (b_announced b)) /\
+  (b_announced b <> [] \/ b_trailers b <> [] -> rs_chunking s = true) /\
+  (forall k, olist (hlookup (rw_trailers s) k) = olist (hlookup (final_trailers b) k)).
+Proof. intros H1 H2 H3. exact (trailers_relayed_rw h b (copy_writes bufsz r) mid H1 H2 H3). Qed.
+
+Lemma body_relay_spec bufsz r : (0 < bufsz)%nat ->
+  (concat (copy_writes bufsz r) = r_data r /\ Forall (fun w => (0 < length w <= bufsz)%nat) (copy_writes bufsz r)) /\
+  (forall h b mid, flush_interleave (map OWrite (copy_writes bufsz r)) mid ->
+                   rs_out (rw_run true h (resp_ops_with b mid)) = r_data r).
+Proof.
+  intros Hb. split; [apply copy_writes_spec; exact Hb|].
+  intros h b mid Hfi. apply (response_body_relayed h b r bufsz mid Hb Hfi).
+Qed.
+
+Lemma request_body_every_attempt body n i : (i < n)%nat -> nth_error (buffered_attempt_bodies body n) i = Some body.
+Proof.
+  unfold buffered_attempt_bodies. revert i. induction n as [|n IH]; intros i H; [lia|].
+  destruct i as [|i]; [reflexivity|]. simpl. apply IH. lia.
+Qed.
+
+(* -- boolean checkers for the hypotheses (used by the non-vacuity examples) -- *)
+Fixpoint nodupb (l : list bytes) : bool := match l with [] => true | x :: r => negb (mem x r) && nodupb r end.
+Lemma nodupb_sound l : nodupb l = true -> NoDup l.
+Proof.
+  induction l as [|x l IH]; intros H; [constructor|]. simpl in H. apply andb_true_iff in H. destruct H as [H1 H2].
+  constructor; [|apply IH; exact H2]. intros HIn. apply mem_In in HIn. rewrite HIn in H1. discriminate.
+Qed.
+
+Definition client_hdr_okb (h : hdr) : bool :=
+  nodupb (map fst h) && negb (has_key h K_CL) && negb (has_key h K_TRAILER) &&
+  forallb (fun kv => negb (has_prefix (fst kv) TRAILER_PREFIX)) h.
+Lemma client_hdr_okb_sound h : client_hdr_okb h = true -> client_hdr_ok h.
+Proof.
+  unfold client_hdr_okb, has_key. intros H. repeat (apply andb_true_iff in H; destruct H as [H ?]).
+  split; [apply nodupb_sound; exact H|]. split; [destruct (hlookup h K_CL); [discriminate|reflexivity]|].
+  split; [destruct (hlookup h K_TRAILER); [discriminate|reflexivity]|].
+  intros k Hk. apply hlookup_notin. intros HIn. apply in_map_iff in HIn. destruct HIn as [kv [E HIn]].
+  rewrite forallb_forall in H0. specialize (H0 kv HIn). rewrite E, Hk in H0. discriminate.
+Qed.
+
+Definition trailer_key_okb (k : bytes) : bool :=
+  beq (canon_key k) k && match conn_tokens k with [x] => beq x k | _ => false end &&
+  negb (has_prefix k TRAILER_PREFIX) && negb (beq k K_TRAILER).
+Definition trailer_keys_okb (h : hdr) (b : bresp) : bool :=
+  nodupb (b_announced b) && nodupb (map fst (b_trailers b)) &&
+  forallb trailer_key_okb (b_announced b ++ map fst (b_trailers b)) && forallb (fun k => negb (has_key h k)) (b_announced b).
+Lemma trailer_keys_okb_sound h b : trailer_keys_okb h b = true -> trailer_keys_ok h b.
+Proof.
+  unfold trailer_keys_okb. intros H. repeat (apply andb_true_iff in H; destruct H as [H ?]).
+  split; [apply nodupb_sound; exact H|]. split; [apply nodupb_sound; exact H2|]. split.
+  - intros k Hk. rewrite forallb_forall in H1. specialize (H1 k (in_or_app _ _ _ Hk)).
+    unfold trailer_key_okb in H1. repeat (apply andb_true_iff in H1; destruct H1 as [H1 ?]).
+    split; [apply beq_eq; exact H1|]. split.
+    + destruct (conn_tokens k) as [|x [|y l]]; try discriminate. apply beq_eq in H5. subst x. reflexivity.
+    + split; [apply negb_true_iff; exact H4|]. apply beq_false_iff. apply negb_true_iff. exact H3.
+  - intros k Hk. rewrite forallb_forall in H0. specialize (H0 k Hk). unfold has_key in H0.
+    destruct (hlookup h k); [discriminate|reflexivity].
+Qed.
+
+Definition wit_rh : hdr := [(bs "Content-Type"%string, [bs "text/plain"%string]); (bs "X-A"%string, [bs "v1"%string])].
+Definition wit_rb : bresp :=
+  {| b_status := 200; b_hdr := []; b_announced := [bs "X-T1"%string];
+     b_trailers := [(bs "X-T1"%string, [bs "t1"%string]); (bs "X-U1"%string, [bs "t2"%string; bs "t3"%string])] |}.
+Definition wit_rb_unannounced : bresp :=
+  {| b_status := 200; b_hdr := []; b_announced := []; b_trailers := [(bs "X-U1"%string, [bs "t2"%string])] |}.
+Definition wit_reader : breader := {| r_data := bs "0123456789"%string; r_script := [0; 3; 1]%nat; r_eofd := false |}.
+
+Lemma trailers_spec_nonvacuous :
+  client_hdr_ok wit_rh /\ trailer_keys_ok wit_rh wit_rb /\ trailer_keys_ok wit_rh wit_rb_unannounced /\
+  flush_interleave (map OWrite (copy_writes 4 wit_reader)) (OWrite (bs "012"%string) :: OFlush :: map OWrite [bs "3"%string; bs "4567"%string; bs "89"%string]) /\
+  hlookup (rw_trailers (rw_run true wit_rh (resp_ops wit_rb (copy_writes 4 wit_reader)))) (bs "X-U1"%string) = Some [bs "t2"%string; bs "t3"%string] /\
+  hlookup (rw_trailers (rw_run true wit_rh (resp_ops wit_rb (copy_writes 4 wit_reader)))) (bs "X-T1"%string) = Some [bs "t1"%string].
+Proof.
+  split; [apply client_hdr_okb_sound; vm_compute; reflexivity|].
+  split; [apply trailer_keys_okb_sound; vm_compute; reflexivity|].
+  split; [apply trailer_keys_okb_sound; vm_compute; reflexivity|].
+  split; [|split; vm_compute; reflexivity].
+  change (copy_writes 4 wit_reader) with [bs "012"%string; bs "3"%string; bs "4567"%string; bs "89"%string].
+  cbn [map]. apply FI_keep. apply FI_flush. repeat apply FI_keep. apply FI_nil.
+Qed.
+
+(* what the Flush before the unannounced trailers is for (the defect F-C04-6, repaired in /repo f844a4b):
+   without it a short body is answered with a Content-Length and the trailers are dropped *)
+Lemma trailers_flush_needed :
+  let old := rw_run true wit_rh (resp_ops_old wit_rb_unannounced [bs "short body"%string]) in
+  let new := rw_run true wit_rh (resp_ops wit_rb_unannounced [bs "short body"%string]) in
+  rs_chunking old = false /\ rs_cl old = Some 10%nat /\ rw_trailers old = [] /\
+  rs_chunking new = true /\ hlookup (rw_trailers new) (bs "X-U1"%string) = Some [bs "t2"%string] /\
+  rs_out old = rs_out new.
+Proof. vm_compute. repeat split; reflexivity. Qed.
+
+Lemma copy_header_nonvacuous :
+  let dst : hdr := [(bs "Content-Type"%string, [bs "text/pre"%string]); (K_SERVER, [bs "Casket"%string]); (bs "X-A"%string, [bs "pre"%string])] in
+  let src : hdr := [(bs "Content-Type"%string, [bs "text/html"%string]); (K_SERVER, [bs "backend"%string]);
+                    (bs "X-A"%string, [bs "v1"%string; bs "v2"%string]); (bs "X-B"%string, [bs "b"%string])] in
+  keys_ok src /\
+  hlookup (copy_header dst src) (bs "Content-Type"%string) = Some [bs "text/pre"%string] /\
+  hlookup (copy_header dst src) K_SERVER = Some [bs "Casket"%string; bs "backend"%string] /\
+  hlookup (copy_header dst src) (bs "X-A"%string) = Some [bs "v1"%string; bs "v2"%string] /\
+  hlookup (copy_header dst src) (bs "X-B"%string) = Some [bs "b"%string].
+Proof.
+  cbv zeta. split; [|vm_compute; repeat split; reflexivity].
+  split; [apply nodupb_sound; vm_compute; reflexivity|].
+  intros k Hk. cbn [map fst In] in Hk. repeat (destruct Hk as [<-|Hk]; [vm_compute; reflexivity|]). destruct Hk.
+Qed.
